@@ -19,7 +19,7 @@ from .. import fd, seams
 ID = "C01"
 LEVEL = "exploration"
 TECHNIQUE = "deterministic simulation: branching RNG seam closes the RNG choice tree of the rejection sampler; exact rational law vs independent enumerator"
-BUDGET = {"quick": (3000, 55), "thorough": (300000, 1500)}
+BUDGET = {"quick": (3000, 45), "thorough": (300000, 1500)}
 CHUNK = 6
 MAX_LEAVES = 20000
 RULE = (
@@ -112,6 +112,12 @@ def run(tape):
         scenario = scenic.scenarioFromString(src, mode2D=prog["mode2D"])
     except Exception as e:  # noqa: BLE001 - every generated program is valid
         msg = f"{type(e).__name__}: {e}"
+        if type(e).__name__ == "InvalidScenarioError" and fd.reference_law(prog, 1) == {("reject",): Fraction(1)}:
+            # objects at fixed positions are validated at compile time; the reference agrees
+            # that no scene exists
+            return {"violations": [], "digest": digest.hexdigest(), "nontrivial": False,
+                    "stats": {"programs": 1, "statically_infeasible_agreed": 1},
+                    "sample": {"program": src, "error": msg[:200]}}
         return {"violations": [{"clause": "compile-error", "detail": {"error": msg[:300], "program": src}}],
                 "digest": digest.hexdigest(), "nontrivial": False,
                 "stats": {"programs": 1, "compile-error": 1}, "sample": {"program": src, "error": msg[:300]}}
